@@ -277,6 +277,8 @@ def do(kind):
             r = hook_api.build_sdist(str(d), cs)
         elif kind == "prepare":
             r = hook_api.prepare_metadata_for_build_wheel(str(d), cs)
+        elif kind == "prepare_editable":
+            r = hook_api.prepare_metadata_for_build_editable(str(d), cs)
         elif kind == "dist_default":
             r = [hook_api.build_wheel("dist", cs), hook_api.build_sdist("dist", cs)]
             d = root / "dist"
@@ -293,7 +295,7 @@ def do(kind):
             r = WheelBuilder.make_in(poetry, d, editable=True, config_settings=cs)
         elif kind == "sdist":
             r = SdistBuilder(poetry, config_settings=cs).build(d).name
-        elif kind == "prepare":
+        elif kind in ("prepare", "prepare_editable"):
             r = WheelBuilder(poetry, config_settings=cs).prepare_metadata(d).name
         elif kind == "dist_default":
             r1 = WheelBuilder.make_in(poetry, None, config_settings=cs)
